@@ -382,7 +382,7 @@ static void one_case(vh::Ctx & c, uint64_t idx)
 
 int main(int argc, char ** argv)
 {
-  return vh::run(argc, argv, "C03", {4000, 300000}, one_case, [](vh::Ctx & c) {
+  return vh::run(argc, argv, "C03", {20000, 300000}, one_case, [](vh::Ctx & c) {
       c.count("loop_hook_calls", vh::loopwatch().calls);
     });
 }
